@@ -233,11 +233,44 @@ def install(ctx, repo, probes):
             ctx.ev("first_after.sub-second-probe-out-of-scope")
             return
         later = [m for m, im in zip(pts, insts) if im > ip]
+        far_want = None
         if later:
             want = later[0]
         elif complete:
             want = None
+        elif exact_iv(rec) and insts:
+            # beyond the listed prefix of an unbounded (or long) exact
+            # series: the next member follows by arithmetic on instants
+            step = R.dur_len(rec._duration)
+            k = (ip - insts[0]) // step + 1
+            n = rec._repetitions
+            if n is not None and k >= n:
+                far_want = "none"
+            else:
+                far_want = insts[0] + k * step
+            want = None
         else:
+            return
+        if far_want is not None:
+            ctx.ev("first_after.post")
+            if far_want == "none":
+                ok = exc is None and res is None
+            else:
+                ok = exc is None and res is not None and \
+                    abs(inst(res) - far_want) <= (
+                        0 if R.tp_is_integral(p) and
+                        R.tp_form(p) == "hms" else F(1, 10**6))
+            if not ok:
+                ctx.violation("first_after", "get_first_after(%r) = %r (exc "
+                              "%r) far along an exact series; the next "
+                              "member is %s s after the start; recurrence "
+                              "%s" % (R.tp_key(p), None if res is None
+                                      else R.tp_key(res), exc,
+                                      far_want if far_want == "none" else
+                                      far_want - insts[0], _rk(rec)),
+                              probe=R.tp_key(p))
+            else:
+                ctx.cls("first_after/far-along")
             return
         ctx.ev("first_after.post")
         if want is None:
@@ -272,7 +305,8 @@ def install(ctx, repo, probes):
             else:
                 ctx.cls("first_after/between")
     probes.wrap(TR, "get_first_after", post_first_after)
-    ctx.target("same-object-other-mode", "binary-fraction-interval")
+    ctx.target("same-object-other-mode", "binary-fraction-interval",
+               "probe/far-along", "first_after/far-along")
     ctx.target("probe/sub-second-near-miss", "is_valid/True", "is_valid/False", "getitem/in", "getitem/out",
                "next/member", "next/none", "prev/member", "prev/none",
                "first_after/none", "first_after/last-member",
@@ -346,6 +380,14 @@ def run_case(ctx, repo, case):
                                               allow_2400=False))
             probes.append(gen.tp_from_instant(rng, mode, hi,
                                               allow_2400=False))
+            if desc["reps"] is None and "dur" in desc and \
+                    not recgen.is_nominal(desc) and desc["fmt"] == 3 and \
+                    step * 400 < 86400 * 366 * 40:
+                # far along an unbounded forward series
+                for mult in (150, 400):
+                    probes.append(gen.tp_from_instant(
+                        rng, mode, lo + step * mult + 7, allow_2400=False))
+                    ctx.cls("probe/far-along")
             if len(insts) > 1:
                 probes.append(gen.tp_from_instant(
                     rng, mode, (insts[0] + insts[1]) // 2, allow_2400=False))
@@ -451,6 +493,20 @@ def workload(ctx, repo):
             case = {"op": "queries", "desc": desc, "probe_seed": k}
             ctx.case = case
             run_case(ctx, repo, case)
+    if ctx.worker == 0:
+        for mode in R.MODES:
+            for y, dkw in ((-1, {"weeks": 1}), (-2, {"days": 4}),
+                           (0, {"hours": 100}), (-1, {"hours": 5})):
+                start = gen.date_kwargs(mode, "cal", R.ymd_to_rd(
+                    mode, y, 12, 25))
+                start.update({"hour_of_day": 0, "minute_of_hour": 0,
+                              "second_of_minute": 0})
+                start.update(gen.zone_kwargs((0, 0)))
+                case = {"op": "queries", "probe_seed": 7 + y,
+                        "desc": {"mode": mode, "fmt": 3, "reps": None,
+                                 "start": start, "dur": dkw}}
+                ctx.case = case
+                run_case(ctx, repo, case)
     n = 300 if ctx.tier == "quick" else 1200
     for k in range(n):
         mode = R.MODES[k % 4] if k % 2 else "gregorian"
